@@ -300,7 +300,7 @@ theorem round_clock_le (cfg : Cfg) (L : Nat) (hL : LatLe cfg L) (dl : Nat) (st :
           (sortEvents (sendBatch cfg st.disableUdp st.clock
             (takeBatch cfg st.disableUdp (max cfg.ncr 1) st.queue []).1 st.conns).1)).1
         rw [heq] at hc
-        simp only [RoundOut.state]
+        simp only [RoundOut.state, cancelInFlight]
         rcases hc with hc | ⟨ev, hev, hc⟩
         · simp only at hc; omega
         · have := sendBatch_fin_le cfg L hL st.disableUdp st.clock _ st.conns ev ((mem_sortEvents ev _).mp hev)
